@@ -127,3 +127,7 @@ def step_unit(kf):
 
 UNITS = {'c14_step': (['C14'], step_unit)}
 SEARCH = {'c14_step': ['c14_pos']}
+
+BOUNDED = {'C14': [dict(case='c14_pos', function='positions of AST nodes reported by parse_query (PositionCalculator::step called by the parse/*.rs builders)',
+                        bound='generated documents mixing LF / CRLF / lone CR, multi-byte and astral characters, comments and strings; every field position compared with an independent line/column count',
+                        why='that every builder steps the calculator on the right pair is spread over the pest-pair plumbing of parse/*.rs (outside Verus)')]}
